@@ -156,6 +156,11 @@ def cases(tier, seed, args):
                             N=int(rng.integers(10, 16)), iterations=int(rng.integers(1, 3)), seed=2 * int(rng.integers(1 << 29)),
                             covariance_type=['full', 'diagonal', 'spherical'][i % 3], singleton_init=False, degenerate_slice=False,
                             covariance_norm='eigenvalue', rank_deficient=False, saliency=True))
+        # univariate Gaussians (D = 1) in stacks; stacks with one degenerate member next to regular ones
+        for i in range(12 if q else 60):
+            out.append(dict(t='stack_dist', dist=['gauss_full', 'gauss_diagonal', 'gauss_spherical'][i % 3], fn=['fit', 'log_pdf'][(i // 3) % 2],
+                            L=[[3], [2, 2], [4]][(i // 6) % 3], D=1 if i < 6 or i % 2 else 2, N=int(rng.integers(8, 16)), seed=2 * int(rng.integers(1 << 29)),
+                            saliency=bool(i % 4 == 0), degenerate_slice=False, degenerate_member=bool(i >= 6), layout='C'))
         # cACG fixed-point iteration: every normalisation x several iteration counts on stacks of different slices
         for i in range(6 if q else 36):
             out.append(dict(t='stack_dist', dist='cacg', fn=['fit', 'log_pdf'][i % 2], L=[[2], [3], [2, 2]][(i // 2) % 3],
@@ -531,6 +536,8 @@ def _stack_dist(case):
     y = y * rng.uniform(0.5, 2, size=(*L, 1, D)) + (rng.normal(size=(*L, 1, D)) if real else 0)
     if case.get('degenerate_slice') and dist == 'vmf':
         y[tuple(0 for _ in L)] = y[tuple(0 for _ in L)][:1]
+    if case.get('degenerate_member') and dist.startswith('gauss'):
+        y[tuple(-1 for _ in L)] = y[tuple(-1 for _ in L)][:1]          # the last slice: all observations identical
     if case.get('near_dup'):
         # nearly (not exactly) tied slices: every slice is the first one moved by 1e-4 relative
         base = y[tuple(0 for _ in L)].copy()
@@ -575,6 +582,12 @@ def _stack_dist(case):
     rng.shuffle(idxs)
     first = tuple(0 for _ in L)
     idxs = [first] + [i for i in idxs if i != first]
+    if ms is None and case.get('degenerate_member'):
+        # a stack that contains a slice which is rejected on its own is outside the property's domain: the stacked call may
+        # reject it as a whole.  (If the stacked call succeeds, its regular slices are compared as usual.)
+        alone = [call(fit, np.ascontiguousarray(y[i]), None if sal is None else np.ascontiguousarray(sal[i]))[0] for i in np.ndindex(*L)]
+        if any(a is None for a in alone):
+            return []
     for idx in idxs[:3]:
         m1, e1 = call(fit, np.ascontiguousarray(y[idx]), None if sal is None else np.ascontiguousarray(sal[idx]))
         key = f'stackd:{case["seed"]}:{idx}'
